@@ -531,6 +531,18 @@ fn synth_files(cfg: &Cfg, tab: &[(i64, i64)]) -> Vec<(std::path::PathBuf, Vec<(i
         mk("long-notes-after", format!("{b}{notes}"), tab.to_vec());
         mk("long-line", format!("#{}\n{b}", "x".repeat(200_000)), tab.to_vec());
     }
+    // 4e. many entries: the table keeps growing (one entry a year until 2130: 128 entries), a fixed-size buffer does not
+    let mut ext = tab.to_vec();
+    for (k, y) in (2031i64..=2130).enumerate() {
+        ext.push((crate::model::cal::days_from_1900(y, if k % 2 == 0 { 1 } else { 7 }, 1) * 86400, 38 + k as i64));
+    }
+    for n in [33usize, 63, 64, 65, 70, 128] {
+        let mut b = String::from("#\tmany entries\n");
+        for t in &ext[..n] {
+            b.push_str(&line(t, "\t", "\t# x"));
+        }
+        mk(&format!("many-{n}"), b, ext[..n].to_vec());
+    }
     // 5. empty table with comments only
     mk("empty", "# nothing here\n\n#\n".to_string(), vec![]);
     out
@@ -572,6 +584,39 @@ pub fn run(cfg: &Cfg, rep: &mut Rep) {
                                     rep.fail("provider/synth-answer", None, || format!("provider {} at TAI count {}: {:?} want {:?}", p.display(), t, g, wv));
                                 }
                             }
+                        }
+                    }
+                }
+            }
+        }
+        // layouts an editor or another tool leaves behind that are not in the published files (indented lines, trailing
+        // blanks, a comment glued to the value, blank-only lines; LF or CRLF line ends as in the published files): refusing the file is fine - a provider
+        // that is returned must hold exactly the table written in the file, never a silently shorter or different one
+        {
+            let dir = cfg.verif_dir.join("harness").join("target").join("synth-leap");
+            let rows = |f: &dyn Fn(&(i64, i64)) -> String| tab.iter().map(|t| f(t)).collect::<String>();
+            let variants: Vec<(&str, String)> = vec![
+                ("indented", rows(&|t| format!("  {}\t{}\t# e\n", t.0, t.1))),
+                ("tab-indented", rows(&|t| format!("\t{}\t{}\n", t.0, t.1))),
+                ("last-indented", tab.iter().enumerate().map(|(i, t)| format!("{}{}\t{}\n", if i + 1 == tab.len() { "\t" } else { "" }, t.0, t.1)).collect()),
+                ("trailing-blanks", rows(&|t| format!("{}\t{}   \n", t.0, t.1))),
+                ("glued-comment", rows(&|t| format!("{}\t{}# e\n", t.0, t.1))),
+                ("indented-comments", format!("  # indented comment\n\t#\ttabbed comment\n{}", rows(&|t| format!("{}\t{}\n", t.0, t.1)))),
+                ("blank-only-lines", format!("   \n\t\n{}", rows(&|t| format!("{}\t{}\n \n", t.0, t.1)))),
+                ("three-columns", rows(&|t| format!("{}\t{}\t1 Jan 1972\n", t.0, t.1))),
+            ];
+            for (name, body) in variants {
+                let p = dir.join(format!("lenient-{}-{}.list", name, cfg.seed));
+                if std::fs::write(&p, body).is_err() || !rep.tick() {
+                    continue;
+                }
+                rep.class("table/file-unusual-layout");
+                match guard(|| LeapSecondsFile::from_path(&p).map(|f| f.collect::<Vec<LeapSecond>>())) {
+                    Err(pp) => rep.fail(&format!("file/panic/{}", pp.class()), None, || format!("from_path({}) panicked: {} at {}", p.display(), pp.msg, pp.loc)),
+                    Ok(Err(_)) => rep.class("table/file-unusual-layout-refused"),
+                    Ok(Ok(got)) => {
+                        if got.len() != tab.len() || !got.iter().zip(tab.iter()).all(|(a, b)| ls_eq(a, b.0, b.1, true)) {
+                            rep.fail("file/unusual-layout-read-differently", None, || format!("from_path({}) is Ok with {} entries (last {:?}); the file holds the {} IERS entries", p.display(), got.len(), got.last(), tab.len()));
                         }
                     }
                 }
@@ -642,6 +687,22 @@ pub fn run(cfg: &Cfg, rep: &mut Rep) {
         i += 1;
         if i % n == sh {
             check_monotone(rep, &w, batch);
+        }
+    }
+    // the mirror images of the table instants about 1900 (and of the instants shifted by each offset): a comparison that takes
+    // a count for its negation - `Duration ==` does within a century - finds a table entry there, 72 to 99 years before 1900
+    for &(ts, o) in &tab {
+        if cfg.fuzz {
+            break;
+        }
+        for base in [-(ts as i128) * NS_S, -(ts as i128 + o as i128) * NS_S, -(ts as i128 - o as i128) * NS_S] {
+            for d in [-NS_S, -2, -1, 0, 1, 2, NS_S] {
+                i += 1;
+                if i % n == sh {
+                    rep.class("instant/mirror-image-of-a-table-entry");
+                    check_utc(rep, &w, base + d, if i % 3 == 0 { file.as_ref() } else { None });
+                }
+            }
         }
     }
     // random
